@@ -7,6 +7,7 @@ use std::collections::BTreeSet;
 pub mod c01;
 pub mod c02;
 pub mod c03;
+pub mod c04;
 pub mod c05;
 pub mod c06;
 pub mod c07;
@@ -17,6 +18,7 @@ pub mod c11;
 pub mod c12;
 pub mod c13;
 pub mod c15;
+pub mod c16;
 pub mod c17;
 pub mod c18;
 pub mod common;
@@ -53,7 +55,7 @@ pub struct CheckDef {
 }
 
 pub fn all() -> Vec<CheckDef> {
-    vec![c01::def(), c02::def(), c03::def(), c05::def(), c06::def(), c07::def(), c08::def(), c09::def(), c10::def(), c11::def(), c12::def(), c13::def(), c15::def(), c17::def(), c18::def()]
+    vec![c01::def(), c02::def(), c03::def(), c04::def(), c05::def(), c06::def(), c07::def(), c08::def(), c09::def(), c10::def(), c11::def(), c12::def(), c13::def(), c15::def(), c16::def(), c17::def(), c18::def()]
 }
 
 pub fn get(id: &str) -> Option<CheckDef> {
